@@ -18,6 +18,7 @@ import (
 	storagev1 "k8s.io/api/storage/v1"
 	apierrors "k8s.io/apimachinery/pkg/api/errors"
 	metav1 "k8s.io/apimachinery/pkg/apis/meta/v1"
+	"k8s.io/apimachinery/pkg/labels"
 	"k8s.io/apimachinery/pkg/runtime/schema"
 	"k8s.io/apimachinery/pkg/types"
 	"k8s.io/utils/clock"
@@ -131,6 +132,8 @@ func kindOf(obj any) string {
 		return "StorageClass"
 	case *appsv1.DaemonSet, *appsv1.DaemonSetList:
 		return "DaemonSet"
+	case *corev1.Namespace, *corev1.NamespaceList:
+		return "Namespace"
 	}
 	panic(fmt.Sprintf("stubs.Client: unsupported object type %T", obj))
 }
@@ -214,6 +217,7 @@ type listFilter struct {
 	fields    map[string]string
 	labels    map[string]string
 	namespace string
+	selector  labels.Selector
 }
 
 func filterOf(opts []client.ListOption) listFilter {
@@ -227,6 +231,12 @@ func filterOf(opts []client.ListOption) listFilter {
 		case client.InNamespace:
 			f.namespace = string(x)
 		case client.UnsafeDisableDeepCopyOption:
+		case *client.ListOptions:
+			f.namespace = x.Namespace
+			f.selector = x.LabelSelector
+			if x.FieldSelector != nil {
+				panic("stubs.Client: field selectors in ListOptions are not modelled")
+			}
 		default:
 			panic(fmt.Sprintf("stubs.Client: unsupported list option %T", o))
 		}
@@ -235,6 +245,9 @@ func filterOf(opts []client.ListOption) listFilter {
 }
 
 func (f listFilter) labelsMatch(l map[string]string) bool {
+	if f.selector != nil && !f.selector.Matches(labels.Set(l)) {
+		return false
+	}
 	for k, v := range f.labels {
 		if l[k] != v {
 			return false
